@@ -6,8 +6,8 @@
   truth value is an input; `true` when the request carries no block matchers).  `id` stands for the
   pointer identity of the `*bucketBlock`.
 
-  Two switches select the code before / after the two repairs made for C15 (the driver runs the
-  current code; the old behaviour stays provable):
+  Two switches select the code before / after the two repairs made for C15 (/repo commits 5d7491d6a and
+  22ba7b303; the driver runs the current code, `dd = guard = true`; the old behaviour stays provable):
     * `dd`    : `true`  = recursive results are appended with `appendMissing` (repaired code),
                 `false` = plain `append` (code before the repair: a finer block that spans a coarser one
                           is returned once per gap).
